@@ -131,6 +131,16 @@ def run_case(spec, workdir):
             data = ident[..., None] * 8 + np.arange(C)
         else:
             data = ident
+        # memory layout of the map: C-contiguous, Fortran-contiguous (a transposed [lon, lat] grid), a strided window, flipped views
+        lay = ["C", "F", "strided", "C", "flip2"][(si + spec["seed"]) % 5]
+        if lay == "F":
+            data = np.asfortranarray(data)
+        elif lay == "strided":
+            big = np.zeros((2 * ny, 2 * nx) + data.shape[2:], data.dtype)
+            big[::2, ::2] = data
+            data = big[::2, ::2]
+        elif lay == "flip2":
+            data = np.ascontiguousarray(data[::-1, ::-1])[::-1, ::-1]
         f = fn(data)
         if si % 2 == 0:
             # samplers of the OTHER layouts for a map of the same shape are built (and one of them used) after this one and
@@ -187,6 +197,17 @@ def run_case(spec, workdir):
                         pb.append("%s map %dx%d: lookup at lon%+d*2pi names a column %d cells away" % (variant, ny, nx, k, int(dc.max())))
                 probs += pb
             npts += lon.size
+        if si == 0:
+            # the same sampler object called from four threads with same-shaped requests
+            from vlib import threads
+
+            reqs = [gen_inputs(R, rng, 256, ny, nx, False) for _ in range(6)]
+            reqs = [(lo.reshape(-1)[:240].reshape(4, 60), la.reshape(-1)[:240].reshape(4, 60)) for lo, la in reqs]
+            ncalls, bad = threads.concurrent_vs_serial([(lambda lo=lo, la=la: np.array(f(lo, la))) for lo, la in reqs], lambda a, b: a.shape == b.shape and np.array_equal(a, b),
+                                                       nthreads=4, rounds=6, seed=spec["seed"], budget_s=2.0)
+            npts += ncalls * 240
+            if bad:
+                probs.append("%s map %dx%d: %d of %d calls made concurrently from 4 threads returned other cells than the same calls made serially" % (variant, ny, nx, len(bad), ncalls))
         combos.append([variant, ny, nx, C])
         if len(probs) > 6:
             break
